@@ -308,8 +308,9 @@ class Ctx:
             "wall_s": round(time.time() - self.t0, 2),
             "violations": len(unlisted),
         }
-        os.makedirs(os.path.join(VERIF_ROOT, "evidence"), exist_ok=True)
-        with open(os.path.join(VERIF_ROOT, "evidence", f"{self.prop}.json"), "w") as f:
+        evdir = os.environ.get("VERIF_EVIDENCE_DIR") or os.path.join(VERIF_ROOT, "evidence")  # redirected by private self-tests only
+        os.makedirs(evdir, exist_ok=True)
+        with open(os.path.join(evdir, f"{self.prop}.json"), "w") as f:
             json.dump(ev, f, indent=1, default=str)
         for k in self.known_hits:
             print(f"KNOWN-FINDING: property={self.prop} {k['key']}: {k['what']}")
